@@ -225,6 +225,18 @@ func (c *LocalReusableWorkflowCache) readCache(key string) (*ReusableWorkflowMet
 	return m, ok
 }
 
+// writeCacheOnce remembers the value unless another goroutine remembered one for the key since the cache
+// miss. It returns the remembered value and whether it was written by this call.
+func (c *LocalReusableWorkflowCache) writeCacheOnce(key string, val *ReusableWorkflowMetadata) (*ReusableWorkflowMetadata, bool) {
+	c.mu.Lock()
+	defer c.mu.Unlock()
+	if m, ok := c.cache[key]; ok {
+		return m, false
+	}
+	c.cache[key] = val
+	return val, true
+}
+
 func (c *LocalReusableWorkflowCache) writeCache(key string, val *ReusableWorkflowMetadata) {
 	if c.proj == nil {
 		return // Null cache. It has no map to remember anything
@@ -260,21 +272,27 @@ func (c *LocalReusableWorkflowCache) FindMetadata(spec string) (*ReusableWorkflo
 	src, err := os.ReadFile(file)
 	if err != nil {
 		verifPoint("rw-write", spec, nil, err)
-		c.writeCache(spec, nil) // Remember the workflow file was not found
+		// Remember the workflow file was not found. When another file found it at the same time, the error was already reported
+		if m, first := c.writeCacheOnce(spec, nil); !first {
+			return m, nil
+		}
 		return nil, fmt.Errorf("could not read reusable workflow file for %q: %w", spec, err)
 	}
 
 	m, err := parseReusableWorkflowMetadata(src)
 	if err != nil {
 		verifPoint("rw-write", spec, nil, err)
-		c.writeCache(spec, nil) // Remember the workflow file was invalid
+		// Remember the workflow file was invalid
+		if m, first := c.writeCacheOnce(spec, nil); !first {
+			return m, nil
+		}
 		msg := strings.ReplaceAll(err.Error(), "\n", " ")
 		return nil, fmt.Errorf("error while parsing reusable workflow %q: %s", spec, msg)
 	}
 
 	c.debug("New reusable workflow metadata at %s: %v", file, m)
 	verifPoint("rw-write", spec, nil, nil)
-	c.writeCache(spec, m)
+	m, _ = c.writeCacheOnce(spec, m)
 	return m, nil
 }
 
